@@ -96,5 +96,13 @@ pub fn run(report: &Report) -> i32 {
         report.cases(20_000, 600_000),
         case_a,
     );
+    run_prop(
+        report,
+        "c01b-assembler",
+        "model-based histories against the stream reassembly buffer on its own (hook VerifAssembler): chunk arrivals with any overlap, duplicates and data below the read position, ordered reads of any max_length, one switch to unordered reads, unordered reads; byte-set model: every byte handed out is the written one, has arrived and was never handed out before, ordered reads neither stall nor skip, everything that arrived is handed out exactly once; non-trivial = overlapping arrivals and at least one byte read",
+        super::c01b::arb_hist,
+        report.cases(400_000, 20_000_000),
+        super::c01b::case,
+    );
     report.finish("generated-input search (proptest) against the stream content model")
 }
